@@ -335,6 +335,31 @@ func (c *Ctx) Ite(cond, a, b *Term) *Term {
 			return c.And(cond, a)
 		}
 	}
+	if a.Sort.K == KBV && a.Op == OConst && b.Op == OConst && !c.NoSimp {
+		w := a.Sort.W
+		if w == 1 {
+			// ite(x == 1, 1, 0) over one bit is x itself
+			if cond.Op == OEq {
+				x, k := cond.Args[0], cond.Args[1]
+				if x.Op == OConst {
+					x, k = k, x
+				}
+				if k.Op == OConst && x.Sort.K == KBV && x.Sort.W == 1 {
+					if (k.K == 1) == (a.K == 1) {
+						return x
+					}
+					return c.Un(OBvNot, x)
+				}
+			}
+		} else if b.K == 0 && a.K != 0 && a.K&(a.K-1) == 0 {
+			// ite(c, 2^k, 0): a one-bit field at position k (lets or-chains of such terms fold into concats)
+			k := bits.TrailingZeros64(a.K)
+			return c.field(c.Ite(cond, c.BV(1, 1), c.BV(1, 0)), k, w)
+		} else if a.K == 0 && b.K != 0 && b.K&(b.K-1) == 0 {
+			k := bits.TrailingZeros64(b.K)
+			return c.field(c.Ite(cond, c.BV(1, 0), c.BV(1, 1)), k, w)
+		}
+	}
 	// ite(c, ite(c, x, y), z) = ite(c, x, z)
 	if a.Op == OIte && a.Args[0] == cond {
 		return c.Ite(cond, a.Args[1], b)
@@ -369,6 +394,10 @@ func (c *Ctx) Eq(a, b *Term) *Term {
 			return c.Not(a)
 		}
 	}
+	if b.Op == OConst && a.Sort.K == KBV && a.Sort.W == 1 && b.K == 0 && !c.NoSimp {
+		// canonical form of one-bit tests: x == 0  is  not (x == 1)
+		return c.Not(c.Eq(a, c.BV(1, 1)))
+	}
 	if b.Op == OConst && a.Sort.K == KBV && !c.NoSimp {
 		switch a.Op {
 		case OIte:
@@ -385,6 +414,8 @@ func (c *Ctx) Eq(a, b *Term) *Term {
 		case OConcat:
 			hi, lo := a.Args[0], a.Args[1]
 			return c.And(c.Eq(hi, c.BV(hi.Sort.W, b.K>>uint(lo.Sort.W))), c.Eq(lo, c.BV(lo.Sort.W, b.K)))
+		case OBvNot:
+			return c.Eq(a.Args[0], c.BV(a.Sort.W, ^b.K))
 		case OBvXor:
 			if a.Args[1].Op == OConst {
 				return c.Eq(a.Args[0], c.BV(a.Sort.W, b.K^a.Args[1].K))
@@ -864,7 +895,7 @@ func (c *Ctx) ZExt(w int, a *Term) *Term {
 	if a.Op == OZExt {
 		return c.ZExt(w, a.Args[0])
 	}
-	if a.Op == OIte && a.Args[1].Op == OConst && a.Args[2].Op == OConst && !c.NoSimp {
+	if a.Sort.W > 1 && a.Op == OIte && a.Args[1].Op == OConst && a.Args[2].Op == OConst && !c.NoSimp {
 		return c.Ite(a.Args[0], c.ZExt(w, a.Args[1]), c.ZExt(w, a.Args[2]))
 	}
 	return c.mk(OZExt, BVSort(w), 0, "", a)
@@ -884,7 +915,7 @@ func (c *Ctx) SExt(w int, a *Term) *Term {
 		if c.zeroMask(a)>>(uint(a.Sort.W)-1)&1 == 1 {
 			return c.ZExt(w, a)
 		}
-		if a.Op == OIte && a.Args[1].Op == OConst && a.Args[2].Op == OConst {
+		if a.Sort.W > 1 && a.Op == OIte && a.Args[1].Op == OConst && a.Args[2].Op == OConst {
 			return c.Ite(a.Args[0], c.SExt(w, a.Args[1]), c.SExt(w, a.Args[2]))
 		}
 	}
